@@ -216,8 +216,9 @@ def finish(pid, cfg, tier, seed, vres, kres, known, t0, scratch):
             if len(samples) < 6 and m.get('spec'):
                 try:
                     txt = open(os.path.join(VERIF, 'verus', 'contracts', m['spec'])).read()
-                    mm = re.search(r'ensures\s*\n\s*(.*)', txt)
-                    samples.append(dict(unit=unit, function=m['function'], obligation=(mm.group(1).strip() if mm else txt[:120])))
+                    mm = re.search(r'ensures\s*\n((?:.*\n)*?)(?:@|\Z)', txt)
+                    ens = [' '.join(l.split()) for l in (mm.group(1) if mm else txt).split('\n') if l.strip() and not l.strip().startswith('//')]
+                    samples.append(dict(unit=unit, function=m['function'], engine='verus', ensures=ens[:6]))
                 except Exception:
                     pass
         # lemma-level failures (outside units)
